@@ -23,13 +23,16 @@ CHECKS = {
 }
 
 CHECKS["C01"] = dict(
-    technique="Coq exact-arithmetic model of the clipping algorithm (extracted) as oracle + soundness theorems; differential correspondence per cell",
-    text="Every constructed cell of every generated input (8 families incl. lattices, co-spherical, walls, clusters; 1D/2D/3D; periodic or not; masks) is compared "
-         "with the cell the exact model computes by the same clipping algorithm over integers (volume, centroid, per-(neighbour,shift) face area and centroid, vertices "
-         "inside all exact half-spaces); the model's vertices are checked in exact arithmetic against all sites. Theorems (in progress) state that the model's planes are "
-         "bisectors/walls and that the model cell contains the nearest-generator region; completeness is partial (VerticesSpan hypothesis, DESIGN 5 C01).",
-    note="Partial: equality model cell = Voronoi cell is proved only in the superset direction; the converse is validated per run in exact arithmetic. "
-         "Rounding handled by tolerances (DESIGN 3.4, with a conditioning term for close generator pairs). Known findings K1/K2 suppress only their signatures.",
+    technique="Coq exact-arithmetic model of the clipping algorithm (extracted) as oracle + soundness theorems in both directions; differential correspondence per cell",
+    text="Theorems about the model (all inputs): every plane of a built cell is a wall or the bisector of a given site, hence the cell (as intersection of its half-spaces) "
+         "contains the nearest-generator region; conversely, for every regular 3D construction with the sites in order of distance, every vertex - and every convex "
+         "combination of vertices - is at least as close to the generator as to EVERY site, including those skipped by the safety radius (regularity is a decidable "
+         "predicate, evaluated by the extracted model for each compared cell and counted in the evidence); 1D closed form. Tie: every constructed cell of every generated "
+         "input (families incl. lattices, co-spherical, walls, clusters, far offsets, density contrast; 1D/2D/3D; periodic or not; masks) is compared with the cell the "
+         "extracted model computes (volume, centroid, per-(neighbour, shift) face area and centroid, vertices inside all exact half-spaces).",
+    note="Partial: hull(vertices) <= region <= polytope(planes) is proved; that the polytope is the hull of the maintained vertices (VerticesSpan) is not. The converse "
+         "theorem is stated for dim = 3; 1D has its own closed-form theorem, 2D relies on the per-run exact check. Rounding handled by tolerances (DESIGN 3.4). "
+         "Known findings K1/K2/K4/K5 suppress only their signatures.",
     design="5 C01")
 CHECKS["C07"] = dict(
     technique="Coq proofs on the structural model (face rule, masks) + exhaustive-mask differential run against the full build",
